@@ -24,7 +24,7 @@ use lightning::types::payment::PaymentHash;
 use lightning_signer::channel::{ChannelId, CommitmentType};
 use lightning_signer::node::{NodeMonitor, SpendType};
 use lightning_signer::util::test_utils::{
-    channel_commitment, counterparty_sign_holder_commitment, make_test_invoice, TestChannelContext,
+    channel_commitment, counterparty_sign_holder_commitment, TestChannelContext,
     TestFundingTxContext,
 };
 use lightning_signer::verif_sync::{set_lock_tracer, LockTracer};
@@ -169,6 +169,25 @@ fn world() -> World {
     World { fx, ch1, ch2, ch3, names }
 }
 
+fn current_invoice(x: u8, amt: u64) -> lightning_signer::invoice::Invoice {
+    use bitcoin::hashes::sha256::Hash as Sha256Hash;
+    use lightning::types::payment::{PaymentPreimage, PaymentSecret};
+    use lightning_signer::lightning_invoice::{Currency, InvoiceBuilder};
+    let payment_hash = Sha256Hash::hash(&PaymentPreimage([x; 32]).0);
+    let private_key = bitcoin::secp256k1::SecretKey::from_slice(&[42; 32]).unwrap();
+    lightning_signer::invoice::Invoice::Bolt11(
+        InvoiceBuilder::new(Currency::Regtest)
+            .description("test".into())
+            .payment_hash(payment_hash)
+            .payment_secret(PaymentSecret([x; 32]))
+            .duration_since_epoch(Duration::from_secs(NOW_SECS - 10))
+            .min_final_cltv_expiry_delta(144)
+            .amount_milli_satoshis(amt)
+            .build_signed(|hash| bitcoin::secp256k1::Secp256k1::new().sign_ecdsa_recoverable(hash, &private_key))
+            .unwrap(),
+    )
+}
+
 fn unknown_id() -> ChannelId {
     ChannelId::new_from_peer_id_and_oid(&peer_id(), 77)
 }
@@ -231,6 +250,15 @@ fn ops() -> Vec<Op> {
                 let cc = pick(w);
                 st(w.fx.node.with_channel(&cc.channel_id, |c| c.sign_holder_commitment_tx_phase2(0)).map(|_| json!(null)))
             })),
+            (nm("sign_mutual_close"), none(), Box::new(move |w| {
+                use lightning_signer::util::test_utils::make_test_funding_wallet_addr;
+                let cc = pick(w);
+                let script = make_test_funding_wallet_addr(&w.fx.node, 1, SpendType::P2wpkh).script_pubkey();
+                let path: DerivationPath = vec![bitcoin::bip32::ChildNumber::from_normal_idx(1).unwrap()].into();
+                st(w.fx.node.with_channel(&cc.channel_id, |c| {
+                    c.sign_mutual_close_tx_phase2(2_998_000, 0, &Some(script.clone()), &None, &path)
+                }).map(|_| json!(null)))
+            })),
             (nm("forget_channel"), none(), Box::new(move |w| {
                 let cc = pick(w);
                 st(w.fx.node.forget_channel(&cc.channel_id).map(|_| json!(null)))
@@ -257,7 +285,7 @@ fn ops() -> Vec<Op> {
     })));
     v.push(("chaninfo", none(), Box::new(|w| json!({"ok": true, "v": w.fx.node.chaninfo().len()}))));
     v.push(("add_invoice", none(), Box::new(|w| {
-        let inv = make_test_invoice(1, 100_000);
+        let inv = current_invoice(1, 100_000);
         st(w.fx.node.add_invoice(inv).map(|b| json!(b)))
     })));
     v.push(("add_keysend", none(), Box::new(|w| {
@@ -266,6 +294,12 @@ fn ops() -> Vec<Op> {
     })));
     v.push(("add_allowlist", none(), Box::new(|w| {
         st(w.fx.node.add_allowlist(&["bcrt1qw508d6qejxtdg4y5r3zarvary0c5xw7kygt080".to_string()]).map(|_| json!(null)))
+    })));
+    v.push(("set_allowlist", none(), Box::new(|w| {
+        st(w.fx.node.set_allowlist(&["bcrt1qw508d6qejxtdg4y5r3zarvary0c5xw7kygt080".to_string()]).map(|_| json!(null)))
+    })));
+    v.push(("remove_allowlist", none(), Box::new(|w| {
+        st(w.fx.node.remove_allowlist(&["bcrt1qw508d6qejxtdg4y5r3zarvary0c5xw7kygt080".to_string()]).map(|_| json!(null)))
     })));
     v.push(("check_onchain_tx", none(), Box::new(|w| {
         let nctx = w.fx.node_ctx();
